@@ -301,7 +301,12 @@ func (k *kindOracle) factAt(at ssa.Instruction, v ssa.Value, depth int) kindSet 
 	for _, g := range guardsOf(at.Block()) {
 		cnd, flip := stripNot(g.If.Cond)
 		b, ok := cnd.(*ssa.BinOp)
-		if !ok || b.Op != token.EQL || g.Branch == flip {
+		if !ok {
+			continue
+		}
+		// kinds are equal on: the true edge of ==, or the false edge of != (early return on a mismatch)
+		holds := g.Branch != flip
+		if !((b.Op == token.EQL && holds) || (b.Op == token.NEQ && !holds)) {
 			continue
 		}
 		sx, okx := kindCallSubject(b.X)
